@@ -241,6 +241,16 @@ def run(ctx):
                 k = "".join("x" if a != b else "." for a, b in zip(exp, got))
                 if k in seen:
                     continue
+                # does the answer match under the other floating scaling convention (val / gridSize instead of val * scaleFactor)?
+                # then the pixel RULE is intact and only the scaling step of the model is out of date: a broken tie, not a failing input
+                _, alt = verif.run_driver_lines("hotpixel-div", [case], driver_exe=DRV)
+                if alt and alt[0] == exp:
+                    if "convention" not in seen:
+                        seen.add("convention")
+                        ctx.violation("HotPixel now scales ordinates by division (val / gridSize) instead of val * scaleFactor: the floating scaling step of the "
+                                      "driver (Driver/C04.lean, `scv`) no longer mirrors the code; the pixel rule itself agrees",
+                                      {"kind": "tie-broken", "correspondence": "hotpixel", "case": "H " + case, "impl": exp, "model_mul": got, "model_div": alt[0]}, nofail=True)
+                    continue
                 seen.add(k)
                 found_input = True
                 ctx.violation("HotPixel answers differ from the geometric definition (intersects(p0) intersects(p1) intersects(p0,p1) intersects(p1,p0)): impl %s, definition %s" % (exp, got),
